@@ -102,6 +102,39 @@ def case_ctor(R, D, diag, give):
     return Case(label, fn)
 
 
+def case_far_mean(D, dist):
+    """densities whose mean is far from the origin (|mu| ~ dist standard deviations): the natural parameters are large
+    (mu' Lambda mu / 2 beyond the float64 exponent range for dist >= 40) while every value of the density is an ordinary
+    number; evaluate(), evaluate_ln() and the mass must agree with the closed form"""
+    label = f"far-mean/D{D}/dist{dist:g}"
+    def fn(m):
+        rng = gen.rng_path(m.seed, label)
+        fails = []
+        R = 2
+        S = gen.pd_batch(rng, R, D)
+        dirs = rng.standard_normal((R, D)); dirs /= np.linalg.norm(dirs, axis=1, keepdims=True)
+        mu = dist * dirs * np.sqrt(np.array([np.max(np.linalg.eigvalsh(S[r])) for r in range(R)]))[:, None]
+        params = dict(R=R, D=D, dist=dist)
+        reg = m.pdf(R, D, S, mu)
+        if m.regs.get(reg) is None:
+            fails.append(failure(PROPERTY, "GaussianPDF", f"raised: {m.impl[-1][1:]}", params=params)); return fails
+        x = np.concatenate([mu[:1], mu[:1] + rng.standard_normal((2, D)) @ np.linalg.cholesky(S[0]).T])
+        xr = m.arr(x)
+        ln_ref = np.stack([normal_logpdf(x, mu[r], S[r]) for r in range(R)])
+        ev = np.asarray(m.regs[m.evalln(reg, xr)])
+        fail_if(fails, PROPERTY, "evaluate_ln:far-mean", "log-density != ln N(x; mu, Sigma)", ev, ln_ref, params=params, tol=1e-7)
+        val = np.asarray(m.regs[m.evaluate(reg, xr)])
+        ref = np.exp(ln_ref)
+        if not np.all(np.isfinite(val[0])):
+            fails.append(failure(PROPERTY, "evaluate:far-mean", "density value not finite at / near its own mean", expected=ref[0].tolist(), got=val[0].tolist(), params=params))
+        else:
+            fail_if(fails, PROPERTY, "evaluate:far-mean", "density value != N(x; mu, Sigma)", val[0], ref[0], params=params, tol=1e-6)
+        r_ = m.query("log_integral", reg)
+        fail_if(fails, PROPERTY, "log_integral:far-mean", "log_integral() of a density != 0", np.asarray(m.regs[r_]), np.zeros(R), params=params, tol=1e-6, signed_dev=True)
+        return fails
+    return Case(label, fn)
+
+
 def case_highdim(D, scale):
     """diagonal densities of high dimension with uniformly small / large variances: well conditioned (condition number 4),
     but det Sigma itself is far outside the float64 range, the log-determinant is not (C02 quantifies over all D)"""
@@ -165,4 +198,6 @@ def cases(seed, tier):
         out.append(case_transform(*s))
     for D, scale in [(96, 1e-4), (96, 1e4)] + ([] if tier == "quick" else [(160, 1e-3), (48, 1e-8), (128, 1e3)]):
         out.append(case_highdim(D, scale))
+    for D, dist in [(1, 45.0), (2, 60.0)] + ([] if tier == "quick" else [(3, 100.0), (1, 10.0)]):
+        out.append(case_far_mean(D, dist))
     return seeded(out, seed)
